@@ -436,6 +436,11 @@ def load_corpus():
 def main():
     chk = Check("C02", groups=["Subproc"])
     chk.build_props()
+    from harness.c01_branchcov import BranchCov, summarize
+
+    cov = BranchCov(['stable_baselines3/common/vec_env/subproc_vec_env.py', 'stable_baselines3/common/vec_env/dummy_vec_env.py', 'stable_baselines3/common/vec_env/base_vec_env.py']) if BranchCov.enabled() else None
+    if cov:
+        cov.start()
     sk = (chk.notes.get("fragments") or {}).get("Subproc", {})
     if sk.get("unrecognised"):
         chk.notes["skeleton_unrecognised"] = sk["unrecognised"]
@@ -528,6 +533,9 @@ def main():
         "tuple vs list containers of infos / reset_infos are not treated as a difference; element values, dtypes of observations and order are",
         "the scripted sub-environments run without sleeps in the DummyVecEnv (delays are injected in the SubprocVecEnv workers only)",
     ]
+    if cov:
+        cov.stop()
+        chk.notes["branch_coverage_unexecuted"] = summarize(cov.report(), common.REPO)
     return chk.finish()
 
 
